@@ -59,3 +59,23 @@ Example C07_ex_block :
   xsi_type_ok ex_env 0 [] 2 = true /\ xsi_type_ok ex_env 0 [Ext] 2 = false /\
   xsi_type_ok ex_env 0 [Restr] 1 = true /\ xsi_type_ok ex_env 1 [Ext] 2 = true /\ xsi_type_ok ex_env 1 [] 0 = false.
 Proof. vm_compute. repeat split. Qed.
+
+(* a test that ends in a dynamic XPath error does not hold: the next alternative (or the declared type) governs *)
+Theorem C07_first_alternative_dyn : forall alts declared,
+  (forall a, In a alts -> holds (fst a) = false) /\ alternative_type_dyn alts declared = declared \/
+  exists pre a post, alts = pre ++ a :: post /\ holds (fst a) = true /\
+                     (forall x, In x pre -> holds (fst x) = false) /\ alternative_type_dyn alts declared = snd a.
+Proof. exact first_alternative_dyn. Qed.
+Print Assumptions C07_first_alternative_dyn.
+
+(* the code before fix 7f56e74 let the error escape: where it returned at all it agreed, but it could raise although a
+   later alternative holds *)
+Theorem C07_raise_agrees_when_defined : forall alts declared t,
+  alternative_type_raise alts declared = Some t -> alternative_type_dyn alts declared = t.
+Proof. exact raise_agrees_when_defined. Qed.
+Print Assumptions C07_raise_agrees_when_defined.
+
+Theorem C07_raise_variant_refuted :
+  exists alts declared, alternative_type_raise alts declared = None /\ alternative_type_dyn alts declared <> declared.
+Proof. exact raise_variant_refuted. Qed.
+Print Assumptions C07_raise_variant_refuted.
